@@ -232,7 +232,7 @@ func main() {
 		}})
 	// malformed phrases
 	kinds := []string{"unknown-word", "capitalised", "allcaps", "trailing-space", "leading-space", "double-space-after", "tab-separator-after",
-		"newline-separator-after", "nbsp-separator-after", "empty-word", "word-plus-tab", "word-plus-newline", "dropped", "duplicated", "comma-after", "mixed-case"}
+		"newline-separator-after", "nbsp-separator-after", "empty-word", "word-plus-tab", "word-plus-newline", "dropped", "duplicated", "comma-after", "mixed-case", "word-plus-nul", "word-plus-letter", "prefix-of-word"}
 	nk := int64(len(kinds))
 	ck.Domains = append(ck.Domains, &drv.Domain{Name: "malformed", Size: 2 * 3 * 34 * nk, Desc: "valid phrase (48/51-byte form x 3 backgrounds) with ONE malformation of each kind at every word position: must be refused",
 		Run: func(c *drv.Ctx, lo, hi int64) {
@@ -306,6 +306,12 @@ func main() {
 					m = mod(w + "\t")
 				case "word-plus-newline":
 					m = mod(w + "\n")
+				case "word-plus-nul":
+					m = mod(w + "\x00")
+				case "word-plus-letter":
+					m = mod(w + "z")
+				case "prefix-of-word":
+					m = mod(w[:len(w)-1])
 				case "dropped":
 					x := append(append([]string{}, ws[:p]...), ws[p+1:]...)
 					m = strings.Join(x, " ")
@@ -318,7 +324,17 @@ func main() {
 					// the malformation produced another well-formed phrase of even length (dropped/duplicated never do: odd count)
 					c.Count("malformation-yielded-wellformed", 1)
 				}
+				if _, err := refcodec.Decode(index, m); err == nil {
+					continue // e.g. a word minus its last letter can be another list word: then the phrase is simply another valid phrase
+				}
 				got, out := dec(m, n)
+				if strings.HasPrefix(out, "panic-string:") {
+					// history: the SAME malformed phrase presented again must be refused again (a memoised lookup must not turn a miss into a hit)
+					got, out = dec(m, n)
+					if !strings.HasPrefix(out, "panic-string:") {
+						c.Fail(i, "malformed-accepted-on-second-presentation:"+kinds[k], map[string]any{"phrase": m, "kind": kinds[k], "position": p, "observed": fmt.Sprint(out, " ", drv.Hex(got))})
+					}
+				}
 				if !strings.HasPrefix(out, "panic-string:") {
 					c.Fail(i, "malformed-accepted:"+kinds[k], map[string]any{"phrase": m, "kind": kinds[k], "position": p, "form_bytes": n, "observed": fmt.Sprint(out, " ", drv.Hex(got)), "expected": "refusal (explicit string panic)"})
 				}
